@@ -1100,6 +1100,9 @@ func (c *Ctx) atReturn(s *State, fr *Frame, res Val) {
 	env.old = map[string]string{}
 	env.oldIsEntry = true
 	env.localsInPost = true
+	// "cutpoint": false at a real return, true where opt cutbefore/cutafter ends a path — lets a clause say "the function
+	// does not return before the cut" (implies(!cutpoint, …))
+	env.vars["cutpoint"] = Scalar{"false", SBool, types.Typ[types.Bool]}
 	c.bindResults(env, fr.fn, res)
 	// ghost updates
 	for _, u := range c.fc.Updates {
@@ -1182,6 +1185,7 @@ func (c *Ctx) cutReturn(s *State, fr *Frame) {
 	env.old = map[string]string{}
 	env.oldIsEntry = true
 	env.localsInPost = true
+	env.vars["cutpoint"] = Scalar{"true", SBool, types.Typ[types.Bool]}
 	pos := fr.fn.Pos()
 	if fr.idx > 0 {
 		pos = fr.block.Instrs[fr.idx-1].Pos()
